@@ -7,7 +7,7 @@
 (*   C15-*  window / pad / wrap relations between two real runs                 *)
 (* Domain (DESIGN.md section 7): every emitted query has an aligned base;        *)
 (* C02 additionally needs non-conflicting records.                              *)
-EXTENDS Sam, ObsBase
+EXTENDS Sam, Variants, ObsBase
 VARIABLES l, nbad
 
 L(v) == Len(v.ref)
@@ -91,8 +91,29 @@ TopaWindowRelOK(v, k, o) ==   \* a windowed pair = the untrimmed real pair cut f
              /\ p.q = SubSeq(b.q, rc[S(v, r)], rc[E(v, r)])
              /\ (p.hasref => p.r = SubSeq(b.r, rc[S(v, r)], rc[E(v, r)]))
 
+(* ---- sam variants on (multi-record) blocks: C11 relation and the expected indels / SNPs of the pair (C05, C04) ------ *)
+RowOfQ(ro, qn) == LET S1 == SelectSeq(ro.rows, LAMBDA x : x.qi = qn) IN IF Len(S1) = 1 THEN S1[1].muts ELSE <<[t |-> "missing-row", p |-> -1, l |-> -1, text |-> "?"]>>
+MutTexts(ms) == [i \in 1..Len(ms) |-> ms[i].text]
+SamVarFailed(v, c, k, o) ==
+  LET ro == o.runs[k]
+      others == {x \in 1..Len(v.runs) : v.runs[x].cmd = "topavar"}
+  IN IF ~c.d2 THEN {} ELSE
+     IF ro.err # "" THEN {"C11-sam-variants-error"} ELSE
+       (IF \A x \in others : o.runs[x].err = "" => \A g \in 1..Len(c.B) : MutTexts(RowOfQ(ro, c.B[g][1].q)) = MutTexts(RowOfQ(o.runs[x], c.B[g][1].q))
+        THEN {} ELSE {"C11-sam-vs-pair-block"})
+       \cup (IF \A g \in 1..Len(c.B) :
+                  LET ms == RowOfQ(ro, c.B[g][1].q)
+                      io == SelectSeq(ms, LAMBDA m : m.t \in {"ins", "del"})
+                      nu == SelectSeq(ms, LAMBDA m : m.t = "nuc")
+                      pair == c.full[g]
+                  IN /\ {[type |-> io[i].t, pos |-> io[i].p, len |-> io[i].l] : i \in 1..Len(io)} = IndelsOf(pair.R, pair.Q)
+                     /\ {nu[i].p : i \in 1..Len(nu)} = SnpPositions(pair.R, pair.Q)
+                     /\ \A i \in 1..Len(ms) : ms[i].t \in {"ins", "del", "nuc"}
+              THEN {} ELSE {"C05-sam-block-mutations"})
 FailedRun(v, c, k, o) ==
   LET r == v.runs[k]  ro == o.runs[k] IN
+  IF r.cmd = "topavar" THEN {} ELSE
+  IF r.cmd = "samvar" THEN SamVarFailed(v, c, k, o) ELSE
   IF r.cmd = "toma" THEN
        (IF c.d1 /\ ~TomaOK(v, c, r, ro) THEN {"C01-row"} ELSE {})
        \cup (IF ro.err = "" /\ ~TomaWrapOK(v, r, ro) THEN {"C15-wrap"} ELSE {})
